@@ -49,7 +49,10 @@ def target_line(rec, lm):
 
 def _work(job):
     rec, sd = job["rec"], job["seed"]
-    name, text, lm = normgen.render(rec, sd)
+    # the spellings of one case differ in identifiers AND in the class of the text inside comments / strings (a width is
+    # a width whatever the text: digraphs and trigraphs are written with 2 / 3 columns)
+    from concretise import Speller
+    name, text, lm = normgen.render(rec, sd, speller=Speller(sd, quoted_class=("letters", "digraphs", "trigraphs", "operators")[job.get("k", 0) % 4]))
     c = rec["case"]
     if c.get("pos") == "lastline_nonl":
         text = text.rstrip("\n")
@@ -113,8 +116,8 @@ def run(pid, tier):
         R.cov["engine_traces"] = len(traces)
     except Exception as e:  # noqa
         R.machinery(str(e))
-    nseeds = 2 if tier == "quick" else 8
-    jobs = [dict(rec=rec, seed=sd * 11 + s, idx=i, keep=(i % 97 == 0 and s == 0)) for i, rec in enumerate(exports) for s in range(nseeds)]
+    nseeds = 4 if tier == "quick" else 8
+    jobs = [dict(rec=rec, seed=sd * 11 + s, k=s, idx=i, keep=(i % 97 == 0 and s == 0)) for i, rec in enumerate(exports) for s in range(nseeds)]
     results = driverprops.pool_map(_work, jobs)
     for w in results:
         rec = exports[w["idx"]]
